@@ -113,7 +113,7 @@ func (sl *StakeLimiter) checkIndividualPowerLimit(delg *Delegatee, diffPower int
 	return nil
 }
 
-func (sl *StakeLimiter) checkUpdatablePowerLimit(delg *Delegatee, diffPower int64) xerrors.XError {
+func (sl *StakeLimiter) checkUpdatablePowerLimit(delg *Delegatee, diffPower int64, apply bool) xerrors.XError {
 	ridx, powObj := sl.findPowerObj(delg.Addr)
 	if powObj == nil {
 		// `delg` is new face
@@ -168,19 +168,34 @@ func (sl *StakeLimiter) checkUpdatablePowerLimit(delg *Delegatee, diffPower int6
 				updatedPower, sl.baseTotalPower, _ratio, sl.updatableLimitRatio))
 	}
 
-	powObj.Power += diffPower
-
-	if powObj.Power < 0 {
+	if powObj.Power+diffPower < 0 {
 		return xerrors.From(
 			fmt.Errorf("StakeLimiter error: power(%v) of %v is negative",
-				powObj.Power, powObj.Addr))
+				powObj.Power+diffPower, powObj.Addr))
 	}
+	if !apply {
+		// only checking (e.g. CheckTx): the limiter's state is used by block execution and is not changed
+		return nil
+	}
+
+	powObj.Power += diffPower
 	sl.updatedPower = updatedPower
 	sort.Sort(orderedPowerObj(sl.powerObjs)) // sort by power
 	return nil
 }
 
+// CheckLimit checks the limits for the power change and accounts it to the current block.
 func (sl *StakeLimiter) CheckLimit(delg *Delegatee, changePower int64) xerrors.XError {
+	return sl.checkLimit(delg, changePower, true)
+}
+
+// TestLimit checks the limits for the power change without accounting it.
+// It is for the mempool check (CheckTx), which must not affect block execution.
+func (sl *StakeLimiter) TestLimit(delg *Delegatee, changePower int64) xerrors.XError {
+	return sl.checkLimit(delg, changePower, false)
+}
+
+func (sl *StakeLimiter) checkLimit(delg *Delegatee, changePower int64, apply bool) xerrors.XError {
 	sl.mtx.Lock()
 	defer sl.mtx.Unlock()
 
@@ -191,7 +206,7 @@ func (sl *StakeLimiter) CheckLimit(delg *Delegatee, changePower int64) xerrors.X
 	if xerr := sl.checkIndividualPowerLimit(delg, changePower); xerr != nil {
 		return xerr
 	}
-	if xerr := sl.checkUpdatablePowerLimit(delg, changePower); xerr != nil {
+	if xerr := sl.checkUpdatablePowerLimit(delg, changePower, apply); xerr != nil {
 		return xerr
 	}
 	return nil
